@@ -18,6 +18,11 @@ import (
 	"golang.org/x/tools/go/ssa"
 )
 
+type syncMapModel struct {
+	keys []Value
+	vals map[string]Value
+}
+
 func cstr(x *Exec, v Value) string {
 	s := v.(*StrVal)
 	if !s.IsConcrete() {
@@ -839,6 +844,131 @@ func registerLibModels(e *Engine) {
 		"(*sync.RWMutex).RLock", "(*sync.RWMutex).RUnlock"} {
 		always(n, func(x *Exec, a []Value) Value { return nil })
 	}
+	// sync.Map: the table lives in the struct's own 'dirty' field (as an immutable engine value that
+	// is replaced on every update), so that init-time contents are shared and every path sees its
+	// own later updates. Keys must be concrete strings or integers (what caches of names use).
+	const smapField = 2 // struct { mu; read; dirty; misses }
+	smapGet := func(x *Exec, recv Value) (Ref, *syncMapModel) {
+		r := x.deref(recv.(*PtrVal))
+		sv, ok := r.Load().(*StructVal)
+		if !ok || len(sv.F) != 4 {
+			panic(unsupported("sync.Map layout"))
+		}
+		if m, ok := x.syncMaps[r]; ok {
+			return r, m // this path's own version of a table made at init time
+		}
+		if nv, ok := sv.F[smapField].(*NativeVal); ok {
+			return r, nv.V.(*syncMapModel)
+		}
+		return r, &syncMapModel{vals: map[string]Value{}}
+	}
+	smapPut := func(x *Exec, r Ref, m *syncMapModel) {
+		defer func() {
+			if rec := recover(); rec != nil {
+				// the struct was made while a package was initialised and is shared by all paths:
+				// the update belongs to this path only
+				if x.syncMaps == nil {
+					x.syncMaps = map[Ref]*syncMapModel{}
+				}
+				x.syncMaps[r] = m
+			}
+		}()
+		fieldRef{Base: r, Idx: smapField}.Store(&NativeVal{V: m})
+	}
+	smapCopy := func(m *syncMapModel) *syncMapModel {
+		n := &syncMapModel{keys: append([]Value{}, m.keys...), vals: map[string]Value{}}
+		for k, v := range m.vals {
+			n.vals[k] = v
+		}
+		return n
+	}
+	skey := func(x *Exec, k Value) string {
+		iv, ok := k.(*IfaceVal)
+		if ok && iv.T != nil {
+			if sv, ok := iv.V.(*StrVal); ok && sv.IsConcrete() {
+				return "s:" + sv.Conc()
+			}
+			if t, ok := iv.V.(*Term); ok && t.IsConst() {
+				return fmt.Sprintf("i:%s:%d", iv.T.String(), t.Val)
+			}
+		}
+		panic(unsupported("sync.Map with a key that is not a concrete string or integer"))
+	}
+	always("(*sync.Map).Load", func(x *Exec, a []Value) Value {
+		_, m := smapGet(x, a[0])
+		if v, ok := m.vals[skey(x, a[1])]; ok {
+			return TupleVal{v, mkBool(true)}
+		}
+		return TupleVal{nilIface, mkBool(false)}
+	})
+	always("(*sync.Map).Store", func(x *Exec, a []Value) Value {
+		r, m := smapGet(x, a[0])
+		m = smapCopy(m)
+		k := skey(x, a[1])
+		if _, ok := m.vals[k]; !ok {
+			m.keys = append(m.keys, a[1])
+		}
+		m.vals[k] = a[2]
+		smapPut(x, r, m)
+		return nil
+	})
+	always("(*sync.Map).LoadOrStore", func(x *Exec, a []Value) Value {
+		r, m := smapGet(x, a[0])
+		k := skey(x, a[1])
+		if v, ok := m.vals[k]; ok {
+			return TupleVal{v, mkBool(true)}
+		}
+		m = smapCopy(m)
+		m.keys = append(m.keys, a[1])
+		m.vals[k] = a[2]
+		smapPut(x, r, m)
+		return TupleVal{a[2], mkBool(false)}
+	})
+	always("(*sync.Map).Delete", func(x *Exec, a []Value) Value {
+		r, m := smapGet(x, a[0])
+		k := skey(x, a[1])
+		if _, ok := m.vals[k]; !ok {
+			return nil
+		}
+		m = smapCopy(m)
+		delete(m.vals, k)
+		var keys []Value
+		for _, kv := range m.keys {
+			if skey(x, kv) != k {
+				keys = append(keys, kv)
+			}
+		}
+		m.keys = keys
+		smapPut(x, r, m)
+		return nil
+	})
+	always("(*sync.Map).Range", func(x *Exec, a []Value) Value {
+		_, m := smapGet(x, a[0])
+		for _, kv := range m.keys {
+			v, ok := m.vals[skey(x, kv)]
+			if !ok {
+				continue
+			}
+			res := x.invoke(a[1], []Value{kv, v}, nil)
+			if t, ok := res.(*Term); ok && t.IsConst() && t.Val == 0 {
+				break
+			}
+		}
+		return nil
+	})
+	// swag reads a string's bytes through unsafe (hackStringBytes): an ordinary conversion here
+	always("github.com/go-openapi/swag.hackStringBytes", func(x *Exec, a []Value) Value {
+		return sliceOfBytes(x.pickAlt(a[0].(*StrVal)).Bytes())
+	})
+	// sync.Pool: nothing is ever pooled - Get asks New (the last field), Put drops the value
+	always("(*sync.Pool).Get", func(x *Exec, a []Value) Value {
+		sv := x.deref(a[0].(*PtrVal)).Load().(*StructVal)
+		if f, ok := sv.F[len(sv.F)-1].(*FuncVal); ok && f != nil && (f.Fn != nil || f.Builtin != nil || f.Native != "") {
+			return x.invoke(f, nil, nil)
+		}
+		return nilIface
+	})
+	always("(*sync.Pool).Put", func(x *Exec, a []Value) Value { return nil })
 	always("(*sync.Once).Do", func(x *Exec, a []Value) Value {
 		// the Once cell: field 0 'done' (atomic.Uint32 struct) - model with our own flag on the cell
 		p := a[0].(*PtrVal)
